@@ -66,7 +66,23 @@ fn follow_up(r: &mut Prng, case: &mut Case) {
         // a context function of the kept context, by call, from the other thread
         tops.push(Op::Exec { prog: Prog::one(call(f, vec![])), ctx: CtxRef::Slot(slot) });
     }
-    post.push(Op::OnThread { ops: tops });
+    // an infix operator the faulted program used is re-registered BY ANOTHER THREAD, then used again here
+    let used: Vec<(String, i32, bool)> = case
+        .pre
+        .iter()
+        .filter_map(|o| match o {
+            Op::RegIn { name, prec, setter: false, right, .. } => Some((name.clone(), *prec, *right)),
+            _ => None,
+        })
+        .collect();
+    if let Some((name, prec, right)) = used.first().cloned() {
+        let hn = case.add_handler(HandlerSpec::plain(HKind::Infix, Ret::Marker));
+        tops.push(Op::RegIn { name: name.clone(), prec, setter: false, right, h: hn });
+        post.push(Op::OnThread { ops: tops });
+        post.push(Op::Exec { prog: Prog::one(bin(&name, lit_i(1), lit_i(2))), ctx: CtxRef::Slot(slot) });
+    } else {
+        post.push(Op::OnThread { ops: tops });
+    }
     post.push(Op::Describe { prog: Prog::one(bin("+", rf("x"), call("fu_f", vec![lit_i(1)]))) });
     post.push(Op::CtxDump { slot });
     case.post = post;
